@@ -33,6 +33,21 @@ CHECKS = {
    text="Every program of the base set (hand-built static-rules family covering every item kind plus a stride of the generated term family) and every single M_ast edit of it at every site (type, arity, size, bound, literal, name, scope, order, signature, callee, arm, witness edits) is classified by reference checker R1 and given to TemplateProgram::new: accepted iff well-typed. Edits the book leaves open are classified 'unspecified', counted and not judged. Both verdicts must occur per operator.",
    note="R1 is written from book/src/*.md and C04's statement, bidirectional (checking only), nominal type equality after alias resolution, cast admissibility through layout model R3.",
    ref="§6-C04"),
+ "C08": dict(
+   technique="bounded-exhaustive sweep of (bound, length, list source, fold function) on the real compiler + Bit Machine, compared with reference evaluator R2",
+   text="For every bound N (quick 2..256, thorough 2..512), every list length (all lengths for small N, every block edge +-1 above), four list sources (literal, witness, function result, match-selected) and order-sensitive / panicking fold functions (in-order counter that asserts each element, positional hash, tagged and optional elements, assert(e != j) at every block edge j), the compiled program is run with the folded value pinned through an EXPECT witness and compared with R2's left fold; it must fail exactly when R2 panics.",
+   note="Trusted: simplicity-lang, R2/R5. The counter fold succeeds only for first-to-last, exactly-once consumption.",
+   ref="§6-C08"),
+ "C09": dict(
+   technique="bounded-exhaustive sweep of (counter width, exit iteration, flags) on the real compiler + Bit Machine, compared with reference evaluator R2",
+   text="For every counter width (quick 1,2,4,8; thorough +16), every exit iteration 0..2^W-1 and 'never', with and without a body that panics in any iteration after the exit point, and two accumulator offsets: the loop body asserts in every iteration that the counter equals the low bits of the accumulator and that the context is unchanged; the loop result is pinned through an EXPECT witness and compared with R2 (Left(x) or Right(2^W)).",
+   note="Trusted: simplicity-lang, R2/R5. Width 16 (thorough) runs every exit iteration with the plain body and the flag variants at the edges.",
+   ref="§6-C09"),
+ "C10": dict(
+   technique="bounded-exhaustive enumeration of binding structures on the real compiler + Bit Machine, against an environment-stack oracle",
+   text="Every statement structure over two names up to the statement budget (lets with id / ignore / pair patterns, nested blocks, let-with-block, match arms with binders, calls of functions whose parameters permute or shadow the names; nesting 3) and every ordered pair of pattern lets (all patterns up to three leaves) in eight structural contexts is elaborated with an environment stack; after every statement the program asserts the constant each visible name holds, and a twin program referencing a name that is not in scope must be rejected.",
+   note="The elaborator's environment stack is cross-checked against the generic R2 evaluator on every program. All variables are u8.",
+   ref="§6-C10"),
 }
 
 NOT_BUILT_REASON = "check not built yet in this round (planned as bounded-exhaustive exploration, DESIGN.md §6); not claimed until it runs"
